@@ -192,6 +192,33 @@ func c13Enum(thorough bool) mc.Enum {
 			}
 		}
 	}
+	// every percentage 0..100 in every one of the three positions x every emission 1..N, one block each: the three
+	// shares are separate computations, and a rounding slip shows only for particular (percentage, amount) pairs
+	maxE := int64(128)
+	if thorough {
+		maxE = 2500
+	}
+	for pos := 0; pos < 3; pos++ {
+		for r := int64(0); r <= 100; r++ {
+			pos, r := pos, r
+			rest := 100 - r
+			rs := [3]int64{}
+			rs[pos], rs[(pos+1)%3], rs[(pos+2)%3] = r, rest/2, rest-rest/2
+			e.Cases = append(e.Cases, mc.Case{Desc: fmt.Sprintf("split|ratios=%d/%d/%d|emissions 1..%d", rs[0], rs[1], rs[2], maxE), Run: func(env world.Env) mc.CaseResult {
+				out := mc.CaseResult{Class: "ok"}
+				ea := env.(*world.EnvA)
+				for em := int64(1); em <= maxE; em++ {
+					r := c13Run(ea.Fork(), em, 0, rs, em, 1, 0)
+					out.Count++
+					if r.Nontrivial {
+						out.NontrivialCount++
+					}
+					out.Viols = append(out.Viols, r.Viols...)
+				}
+				return out
+			}})
+		}
+	}
 	return e
 }
 
@@ -247,7 +274,7 @@ func init() {
 	CaseReplayers["C13/emission"] = func(r *mc.Run, c string) { r.ReplayCase(c13Enum(true), c) }
 	CaseReplayers["C13/whole-app"] = func(r *mc.Run, c string) { c13WholeApp(r) }
 	Props["C13"] = Prop{Level: "exploration", Run: func(r *mc.Run, tier string) {
-		r.Rules = append(r.Rules, "full product TokensPerBlock {0,1,2,3,5,10,100,4.2M} x MintDecrease {0,6,bpy/2,bpy,bpy+1,2bpy,2^63-bpy,2^63-1} x every ratio triple over {0,8,12,33,34,50,80,100} with sum<=100 x seeded previous emission {none,0,1,2,3,10} x 6 consecutive blocks (thorough: more values, 12 blocks), every 16th ratio triple also started at heights 8, 98 and 14397 (the run crosses 9->10->11, 99->100->101 and the day boundary 14400) through the real jklmint.BeginBlocker on the real bank keeper; one evaluation = one (parameter set, seed) run; non-trivial = emission > 0 in some block")
+		r.Rules = append(r.Rules, "full product TokensPerBlock {0,1,2,3,5,10,100,4.2M} x MintDecrease {0,6,bpy/2,bpy,bpy+1,2bpy,2^63-bpy,2^63-1} x every ratio triple over {0,8,12,33,34,50,80,100} with sum<=100 x seeded previous emission {none,0,1,2,3,10} x 6 consecutive blocks (thorough: more values, 12 blocks), every 16th ratio triple also started at heights 8, 98 and 14397 (the run crosses 9->10->11, 99->100->101 and the day boundary 14400) through the real jklmint.BeginBlocker on the real bank keeper; plus every percentage 0..100 in each of the three positions (the other two sharing the rest) x every emission 1..128 (thorough: 1..2500), one block each; one evaluation = one (parameter set, seed) run; non-trivial = emission > 0 in some block")
 		r.Assumptions = append(r.Assumptions, "module seam for the per-account split (in the whole app the distribution module sweeps the fee collector in the same BeginBlock); whole-app blocks at the ABCI seam check supply growth only", "blocks per year 5,256,000")
 		r.AddEnum(c13Enum(tier == "thorough"), workers(), time.Time{})
 		c13WholeApp(r)
